@@ -181,18 +181,27 @@ def check_from_operands(ctx):
         if asserted is not None:
             ctx.check("C17.O", f"{fo.name}:arity", asserted == len(ops), f"{fo.name}.from_operands asserts {asserted} operands, the class declares {len(ops)}", fo.loc(fn), trivial=True)
         # value preservation: what reaches the constructor is the parsed operand itself, at most wrapped as Immediate(<same value>)
-        def origin(e):
+        multi_defs = A.assigned_names(fn)
+
+        def origin(e, depth=0):
             """the operand expression `e` denotes unchanged (a local bound to an operand, operands[i]), else None"""
             if isinstance(e, ast.Name):
-                return e.id if e.id in pos else None
+                if e.id in pos:
+                    return e.id
+                # another local: every value it can hold denotes the same operand
+                vals = [v for v in multi_defs.get(e.id, []) if v is not None]
+                if vals and depth < 4:
+                    os_ = {origin(v, depth + 1) for v in vals}
+                    return os_.pop() if len(os_) == 1 else None
+                return None
             if isinstance(e, ast.Subscript) and isinstance(e.value, ast.Name) and e.value.id == pname:
                 i_ = ev.try_eval(e.slice, fo.module)
                 return f"{pname}[{i_}]" if isinstance(i_, int) else None
             if isinstance(e, ast.Call) and dotted(e.func).split(".")[-1] == "Immediate":
                 args = list(e.args) + [k.value for k in e.keywords if k.arg == "value"]
-                return origin(args[0]) if len(args) == 1 and len(e.keywords) + len(e.args) == 1 else None
+                return origin(args[0], depth + 1) if len(args) == 1 and len(e.keywords) + len(e.args) == 1 else None
             if isinstance(e, ast.IfExp):
-                a_, b_ = origin(e.body), origin(e.orelse)
+                a_, b_ = origin(e.body, depth + 1), origin(e.orelse, depth + 1)
                 return a_ if a_ is not None and a_ == b_ else None
             return None
 
@@ -225,6 +234,9 @@ def check_from_operands(ctx):
             got = None
             if isinstance(v, ast.Name):
                 got = pos.get(v.id)
+                if got is None and origin(v) is not None:
+                    o_ = origin(v)
+                    got = pos.get(o_) if o_ in pos else (int(o_[len(pname) + 1:-1]) if o_.startswith(pname + "[") else None)
             elif v is not None:
                 idxs = [ev.try_eval(s.slice, fo.module) for s in ast.walk(v) if isinstance(s, ast.Subscript) and isinstance(s.value, ast.Name) and s.value.id == pname]
                 got = idxs[0] if idxs else None
@@ -238,7 +250,7 @@ def check_from_operands(ctx):
                 for n in A.body_nodes(fn):
                     if isinstance(n, ast.Call) and dotted(n.func) == "isinstance" and len(n.args) == 2 and A.norm(n.args[1]) == "int":
                         x = n.args[0]
-                        if (local and isinstance(x, ast.Name) and x.id == local) or (isinstance(x, ast.Subscript) and isinstance(x.value, ast.Name) and x.value.id == pname and ev.try_eval(x.slice, fo.module) == i):
+                        if (local and isinstance(x, ast.Name) and (x.id == local or (origin(x) is not None and origin(x) == origin(v)))) or (isinstance(x, ast.Subscript) and isinstance(x.value, ast.Name) and x.value.id == pname and ev.try_eval(x.slice, fo.module) == i):
                             accepts = True
                 ctx.check("C17.O", f"{fo.name}.{real}:accepts-int", accepts,
                           f"{fo.name}.from_operands does not accept a raw int for the Immediate {real}; the parser leaves literals at Immediate positions as ints", fo.loc(fn), trivial=True)
